@@ -1,6 +1,6 @@
 //! C26 — command struct serialization round-trips and rejects bad input.
 //!
-//! Space: every struct schema with ≤ 2 fields over a 45-type alphabet (7 base types, option /
+//! Space: every struct schema with ≤ 2 fields over a 52-type alphabet (9 base types incl. field-less structs, option /
 //! result nested ≤ 2), compiled from generated policy text by the real compiler (so the
 //! `struct_defs` / `enum_defs` are the compiler's) × every conforming value tuple from boundary
 //! alphabets × the corruption alphabet of DESIGN 4.8 over each encoding × raw byte strings.
@@ -30,6 +30,12 @@ pub enum Ty {
     Id,
     Enum,
     Inner,
+    /// `struct Marker {}` — zero bytes on the wire
+    Marker,
+    /// `struct Wrap { m struct Marker }` — still zero bytes
+    Wrap,
+    /// `struct Twin { a struct Marker, w struct Wrap }`
+    Twin,
     Opt(Box<Ty>),
     Res(Box<Ty>, Box<Ty>),
 }
@@ -44,6 +50,9 @@ impl Ty {
             Ty::Id => "id".into(),
             Ty::Enum => "enum Kind".into(),
             Ty::Inner => "struct Inner".into(),
+            Ty::Marker => "struct Marker".into(),
+            Ty::Wrap => "struct Wrap".into(),
+            Ty::Twin => "struct Twin".into(),
             Ty::Opt(t) => format!("option[{}]", t.src()),
             Ty::Res(a, b) => format!("result[{}, {}]", a.src(), b.src()),
         }
@@ -51,7 +60,7 @@ impl Ty {
 }
 
 pub fn types() -> Vec<Ty> {
-    let base = vec![Ty::Int, Ty::Bool, Ty::Str, Ty::Bytes, Ty::Id, Ty::Enum, Ty::Inner];
+    let base = vec![Ty::Int, Ty::Bool, Ty::Str, Ty::Bytes, Ty::Id, Ty::Enum, Ty::Inner, Ty::Marker, Ty::Wrap];
     let mut l1 = Vec::new();
     for b in &base {
         l1.push(Ty::Opt(Box::new(b.clone())));
@@ -76,6 +85,7 @@ pub fn types() -> Vec<Ty> {
     let mut all = base;
     all.extend(l1);
     all.extend(l2);
+    all.push(Ty::Twin);
     all
 }
 
@@ -85,6 +95,13 @@ fn long_text(n: usize) -> Text {
 
 fn inner(n: i64, f: bool) -> Value {
     Value::Struct(Struct::new(ident!("Inner"), [(ident!("n"), Value::Int(n)), (ident!("f"), Value::Bool(f))]))
+}
+
+fn marker() -> Value {
+    Value::Struct(Struct::new(ident!("Marker"), Vec::<(Identifier, Value)>::new()))
+}
+fn wrap() -> Value {
+    Value::Struct(Struct::new(ident!("Wrap"), [(ident!("m"), marker())]))
 }
 
 pub fn values(t: &Ty) -> Vec<Value> {
@@ -106,6 +123,9 @@ pub fn values(t: &Ty) -> Vec<Value> {
         ],
         Ty::Enum => (0..3).map(|v| Value::Enum(ident!("Kind"), v)).collect(),
         Ty::Inner => vec![inner(0, false), inner(-1, true), inner(i64::MAX, false), inner(64, true)],
+        Ty::Marker => vec![marker()],
+        Ty::Wrap => vec![wrap()],
+        Ty::Twin => vec![Value::Struct(Struct::new(ident!("Twin"), [(ident!("a"), marker()), (ident!("w"), wrap())]))],
         Ty::Opt(t) => {
             let mut v = vec![Value::NONE];
             v.extend(values(t).into_iter().map(|x| Value::Option(Some(Box::new(x)))));
@@ -173,7 +193,13 @@ pub fn ref_encode(v: &Value, defs_inner: &[&str], out: &mut Vec<u8>, marks: &mut
             marks.push((p, Mark::Enum(out.len() - p)));
         }
         Value::Struct(s) => {
-            for f in defs_inner {
+            let order: &[&str] = match s.name.as_str() {
+                "Marker" => &[],
+                "Wrap" => &["m"],
+                "Twin" => &["a", "w"],
+                _ => defs_inner,
+            };
+            for f in order {
                 ref_encode(&s.fields[*f], defs_inner, out, marks);
             }
         }
@@ -235,7 +261,7 @@ impl SerSpace {
                 .iter()
                 .enumerate()
                 .filter(|(i, t)| {
-                    *i < 7
+                    *i < 9
                         || matches!(t, Ty::Opt(b) if matches!(**b, Ty::Int | Ty::Str | Ty::Inner))
                         || **t == Ty::Res(Box::new(Ty::Int), Box::new(Ty::Str))
                         || **t == Ty::Opt(Box::new(Ty::Opt(Box::new(Ty::Int))))
@@ -254,7 +280,7 @@ impl SerSpace {
         let mut machines = Vec::new();
         for chunk in schemas.chunks(per_machine).enumerate() {
             let (ci, chunk) = chunk;
-            let mut src = String::from("enum Kind { A, B, C }\nstruct Inner { n int, f bool }\n");
+            let mut src = String::from("enum Kind { A, B, C }\nstruct Inner { n int, f bool }\nstruct Marker {}\nstruct Wrap { m struct Marker }\nstruct Twin { a struct Marker, w struct Wrap }\n");
             for (k, sch) in chunk.iter().enumerate() {
                 let idx = ci * per_machine + k;
                 let fields: Vec<String> = sch.iter().enumerate().map(|(fi, t)| format!("{} {}", FIELD_NAMES[fi], types[*t].src())).collect();
@@ -631,7 +657,7 @@ pub fn run(args: &Args) {
     common::fold(&mut rep, "ser", acc);
     rep.set(
         "rule",
-        "all struct schemas with ≤2 fields over 45 types (thorough: plus all three-field schemas over 12 of them, ≤4 values per field) (int,bool,string,bytes,id,enum,struct Inner; option/result nested ≤2), compiled by the real compiler × all tuples of boundary values (cross product) → serialize/deserialize through Machine::{serialize,deserialize}_struct and the Serialize/Deserialize instructions; per encoding: every truncation, 4 trailing bytes, every option/result tag 2..=255 (quick, two-field schemas: tags 2,3,0x7f,0x80,0xff), enum values outside, UTF-8 / NUL corruptions of string bodies, id lengths ≠32, 9 byte values + 2 huge varints + adjacent swap at every position (≤48); raw byte strings: all of length ≤2 (one-field schemas; thorough: all schemas), length 3–4 over 16 values (one-field schemas), length ≤1 otherwise. non-trivial = distinct (schema, value tuple) that completed the full round trip",
+        "all struct schemas with ≤2 fields over 52 types (thorough: plus all three-field schemas over 14 of them, ≤4 values per field) (int,bool,string,bytes,id,enum,struct Inner, the field-less struct Marker and structs made only of it — zero bytes on the wire; option/result nested ≤2), compiled by the real compiler × all tuples of boundary values (cross product) → serialize/deserialize through Machine::{serialize,deserialize}_struct and the Serialize/Deserialize instructions; per encoding: every truncation, 4 trailing bytes, every option/result tag 2..=255 (quick, two-field schemas: tags 2,3,0x7f,0x80,0xff), enum values outside, UTF-8 / NUL corruptions of string bodies, id lengths ≠32, 9 byte values + 2 huge varints + adjacent swap at every position (≤48); raw byte strings: all of length ≤2 (one-field schemas; thorough: all schemas), length 3–4 over 16 values (one-field schemas), length ≤1 otherwise. non-trivial = distinct (schema, value tuple) that completed the full round trip",
     );
     rep.set("exhaustive", complete);
     if rep.counter("reference_encoder_disagrees") > 0 {
